@@ -322,6 +322,22 @@ def degenerate_histories():
                    "shape": f"degenerate:{m[0]}"}
 
 
+def shadow_histories():
+    """a flux that the stoichiometry of a surrogate names but no output produces; with and without a DATA SET of the same
+    name: the derivative entry points read fluxes from the argument table (data sets popped) and only the arguments of
+    computed coefficients from `data | args` — thorough seed 0 of round 4 found the Lean model reading the flux from the
+    data set"""
+    su = {"args": ["x"], "outs": ["d9"], "es": [["+", A(0), K(1)]], "st": [["e9", [["x", {"c": "2"}]]]]}
+    qs = [["q", "rhs", ["2", "3", "1"], "1"], ["q", "call", "1", ["1", "2", "3"]], ["q", "rhstc", ROWS],
+          ["q", "fluxes", None, "0"], ["q", "stoich", ["1", "2", "3", "1"], "1"], ["q", "args", None, "0"]]
+    for data in ([], [["add_data", "e9", "1"]], [["add_data", "e9", "1"], ["remove_data", "e9"]],
+                 [["add_parameter", "e9", {"v": "1"}]]):
+        for q in (None, QUERIES[0]):
+            mid = ([q] if q else []) + [["add_surrogate", "n2", su]] + data + qs
+            yield {"ops": BASE + mid + BATTERY[-2:], "check_from": len(BASE), "stratum": "shadow",
+                   "shape": f"shadow:{len(data)}"}
+
+
 def copy_histories():
     """deep copy / pickle round trip of a model with and without a filled cache, then an edit of the copy and queries:
     the copy answers like a fresh model with ITS content, the original keeps its own, `==` ignores the cache"""
